@@ -16,7 +16,7 @@ def coq_str(s):
 
 def generate():
     out = ["(* GENERATED from /repo by tools/lib/tables.py on every run — do not edit. *)",
-           "From Coq Require Import List NArith String.", "Import ListNotations.", "Open Scope N_scope.", ""]
+           "From Coq Require Import List NArith String.", "Import ListNotations.", "Local Open Scope N_scope.", ""]
     # ---- hash.ts
     h = read("packages/beff-client/src/hash.ts")
     m = re.search(r"SHA256_K\s*=\s*new Uint32Array\(\[(.*?)\]\)", h, re.S)
@@ -41,7 +41,7 @@ def generate():
     out.append("Definition byte_false_source : N := %s." % (mb.group(2) if mb else "255"))
     out.append("Definition byte_null_source : N := %s." % num(frame["null"], "255"))
     seeds = re.findall(r"export const (\w+)Hash = generateHashFromString\(\"([^\"]*)\"\);", h)
-    out.append("Open Scope string_scope.")
+    out.append("Local Open Scope string_scope.")
     out.append("Definition hash_seeds_source : list (string * string) := [%s]." %
                "; ".join("(%s, %s)" % (coq_str(a), coq_str(b)) for a, b in seeds))
     mm = re.search(r"const multiplier = (\d+);", h)
@@ -79,7 +79,6 @@ def generate():
         codes = re.findall(r"SubTypeTag::(\w+) => (?:0x)?([0-9a-fA-Fx<\s]+?),", s)
     except OSError:
         codes = []
-    out.append("Close Scope string_scope.")
     return "\n".join(out) + "\n"
 
 
